@@ -829,8 +829,8 @@ def check(ctx):
                        sig=pattern.split("(")[0] + ":" + sig_of(p))
         else:
             ctx.ob("R01.1", cname, True, found=pattern, required="RI1-RI4", mod=mod, node=c)
-    check_scanning_ctors(ctx)
-    check_then_guards(ctx)
+    ctx.attempt(check_scanning_ctors, ctx)
+    ctx.attempt(check_then_guards, ctx)
     nup = check_upgrades(ctx)
     # boxes are one-box diagrams: the dagger of every concrete box class is typed cod -> dom (abstract construction, shared with C02)
     from .c02 import check_daggers
